@@ -6,6 +6,7 @@ import (
 	"encoding/json"
 	"fmt"
 	"io"
+	"net"
 	"net/http"
 	"net/http/httptest"
 	"os"
@@ -278,6 +279,63 @@ func httpCmd(out *cq.Out, seed uint64, tier string) {
 		out.Violate("C11:server-wedged-or-wrong-after-request", "at the end of the request stream: "+why, map[string]interface{}{"seed": seed})
 		writeCases()
 		return
+	}
+	// unusual but valid framing: bodies sent without a length (chunked), and a request announcing far more than it sends
+	{
+		type fr struct {
+			path string
+			body interface{}
+			want int
+		}
+		zero := uint64(0)
+		frs := []fr{
+			{"/events", protocol.Event{Event: []byte("chunked-1")}, 201},
+			{"/events/bulk", protocol.EventsBulk{Events: [][]byte{[]byte("chunked-2"), []byte("chunked-3")}}, 201},
+			{"/proofs/membership", protocol.MembershipQuery{Key: []byte("follow-1"), Version: &zero}, 200},
+			{"/proofs/digest-membership", protocol.MembershipDigest{KeyDigest: hashing.NewSha256Hasher().Do([]byte("follow-1"))}, 200},
+			{"/proofs/incremental", protocol.IncrementalRequest{Start: 0, End: 0}, 200},
+		}
+		for _, f := range frs {
+			b, _ := json.Marshal(f.body)
+			req, _ := http.NewRequest("POST", api.URL+f.path, struct{ io.Reader }{bytes.NewReader(b)})
+			req.ContentLength = -1 // Transfer-Encoding: chunked
+			req.Header.Set("Content-Type", "application/json")
+			desc := map[string]interface{}{"seed": seed, "framing": "chunked", "path": f.path, "body": string(b)}
+			resp, err := hc.Do(req)
+			st := 0
+			if err == nil {
+				st = resp.StatusCode
+				io.ReadAll(resp.Body)
+				resp.Body.Close()
+			}
+			out.Case("chunked:"+f.path, true)
+			if err != nil {
+				out.Violate("C11:dropped-connection:api:POST "+f.path, fmt.Sprintf("a valid POST %s sent with a chunked body got no HTTP response: %v", f.path, err), desc)
+			} else if st != f.want {
+				out.Violate("C11:valid-request-refused:chunked", fmt.Sprintf("a valid POST %s sent with a chunked body is answered %d (the same body with a Content-Length: %d)", f.path, st, f.want), desc)
+			}
+		}
+		// Content-Length of 2^45 bytes, 30 bytes sent, then the client stops writing
+		if conn, err := net.DialTimeout("tcp", strings.TrimPrefix(api.URL, "http://"), 5*time.Second); err == nil {
+			body := `{"Event":"b3ZlcnNpemVkLWxlbmd0aA=="}`
+			fmt.Fprintf(conn, "POST /events HTTP/1.1\r\nHost: qed\r\nContent-Type: application/json\r\nContent-Length: 35184372088832\r\n\r\n%s", body)
+			if tc, ok := conn.(*net.TCPConn); ok {
+				tc.CloseWrite()
+			}
+			conn.SetReadDeadline(time.Now().Add(10 * time.Second))
+			buf := make([]byte, 64)
+			nr, _ := conn.Read(buf)
+			conn.Close()
+			out.Case("oversized-content-length", true)
+			out.Count("oversized_length_answered", map[bool]int{true: 1, false: 0}[nr > 0])
+		}
+		if !withTimeout(45*time.Second, func() {
+			if why := followUp(); why != "" {
+				out.Violate("C11:server-wedged-or-wrong-after-request", "after requests with unusual framing (chunked bodies, a Content-Length larger than the body): "+why, map[string]interface{}{"seed": seed})
+			}
+		}) {
+			out.Violate("C11:server-wedged-or-wrong-after-request", "the node no longer answers after requests with unusual framing", map[string]interface{}{"seed": seed})
+		}
 	}
 	// ordinary concurrent traffic: several clients query (by event, by digest, incremental) while others insert; every
 	// request must be answered, and the node must still work afterwards
